@@ -474,12 +474,29 @@ def rule_transport(chk, prog, E):
         ("add_sentinel_block", "store", "flags", None, load_of("blk_flags"), "the sentinel block inherits the file's flags"),
         ("process_completed_block", "slot", ("struct.sqfs_block_writer_t", "write_data_block"), 4, load_of("flags"), "the block's flags reach the block writer"),
     ]
+    named = {fn for (fn, _k, _t, _a, _s, _w) in chain}
+    expanded = []
     for (fn, kind, tgt, argi, srcp, what) in chain:
         g = [x for x in prog.functions() if x.name == fn]
+        if not g and not fn.startswith("sqfs_"):
+            # a static function: found by what it does, not by its name
+            for x in prog.functions():
+                if x.decl or x.name in named or not x.unit.src.startswith("lib/sqfs/src/block_processor/"):
+                    continue
+                x.build()
+                if kind == "slot" and any(slot_call(c) == tgt for c in x.calls()):
+                    g.append(x)
+                elif kind == "store" and any(i.op == "store" and (field_of_ptr(i.ops[1]) or ("", ""))[1] == tgt and
+                                             "sqfs_block" in (field_of_ptr(i.ops[1]) or ("", ""))[0] and
+                                             depends_on(i.ops[0], srcp, through_loads=False) for i in x.insts()):
+                    g.append(x)
         if not g:
-            chk.broke("%s not found" % fn)
+            chk.broke("%s not found (and no function in the block processor does its job: %s)" % (fn, what))
             continue
-        g = g[0].build()
+        for x in g:
+            expanded.append((x, fn if x.name == fn else x.name, kind, tgt, argi, srcp, what))
+    for (g, fn, kind, tgt, argi, srcp, what) in expanded:
+        g = g.build()
         chk.analysed(g)
         vals = []
         if kind == "call":
